@@ -54,7 +54,7 @@ def inversion_mask(rng, ky, kx, max_unmasked=40, min_unmasked=4):
 
 
 def imaging_case(aa, rng, kshapes=(1, 3, 5), kernel_kind=None, data_kind=None, sub_max=2, max_unmasked=36,
-                 use_normalized_psf=None, over_sampling=True, noise_scale_range=(1e-3, 1e4)):
+                 use_normalized_psf=None, over_sampling=True, noise_scale_range=(1e-3, 1e4), noise_covariance=False):
     ky, kx = int(rng.choice(kshapes)), int(rng.choice(kshapes))
     m, fam = inversion_mask(rng, ky, kx, max_unmasked=max_unmasked)
     ps, origin = gen.mild_scales_origin(rng)
@@ -93,9 +93,23 @@ def imaging_case(aa, rng, kshapes=(1, 3, 5), kernel_kind=None, data_kind=None, s
             sdt = [np.int64, np.int64, np.int8, np.uint8, np.int16][int(np.sum(sub) + len(sub)) % 5]
             sub_arg = aa.Array2D(values=sub.astype(sdt), mask=mask)
         kw["over_sampling"] = aa.OverSamplingDataset(pixelization=aa.OverSamplingUniform(sub_size=sub_arg))
+    cov = None
+    n_un = int((~m).sum())
+    if noise_covariance and (int(np.sum(sub)) + int(m.sum())) % 7 == 0 and n_un >= 2:
+        # the dataset also carries a full noise covariance matrix whose diagonal is the noise map squared (correlated neighbours in
+        # slim order); the inversion's N is the diagonal one whichever formalism runs. Drawn from its own stream (the shared one is
+        # left as it was)
+        r2 = np.random.default_rng([n_un, int(m.sum()), 4])
+        sig = noise[~m]
+        R = np.eye(n_un)
+        rho = float(r2.uniform(0.2, 0.45))
+        R[np.arange(n_un - 1), np.arange(1, n_un)] = rho
+        R[np.arange(1, n_un), np.arange(n_un - 1)] = rho
+        cov = sig[:, None] * R * sig[None, :]
+        kw["noise_covariance_matrix"] = cov
     ds = aa.Imaging(data=data, noise_map=noise_map, psf=psf, use_normalized_psf=use_normalized_psf, **kw)
     k_used = k / k.sum() if use_normalized_psf else k
-    return {"ds": ds, "mask": mask, "m": m, "k": k, "k_used": k_used, "kernel_kind": kind, "mask_family": fam, "d": d, "noise": noise,
+    return {"noise_covariance_matrix": cov, "ds": ds, "mask": mask, "m": m, "k": k, "k_used": k_used, "kernel_kind": kind, "mask_family": fam, "d": d, "noise": noise,
             "sub": sub, "sub_arg": sub_arg, "ps": ps, "origin": origin, "data_kind": data_kind, "normalized": use_normalized_psf, "noise_scale": noise_scale}
 
 
